@@ -7,6 +7,8 @@ import Mathlib.LinearAlgebra.Matrix.Adjugate
 import Mathlib.LinearAlgebra.Matrix.Notation
 import Mathlib.Tactic.Ring
 import Mathlib.Tactic.NormNum
+import Mathlib.LinearAlgebra.Matrix.ToLin
+import Mathlib.LinearAlgebra.Matrix.DotProduct
 /-! The executable model of Model/ZernikeFit.lean is the abstract matrix model of Lemmas/ZernikeFit.lean: Laplace determinant =
 `Matrix.det`, Cramer solution of the normal equations = `(BᵀB)⁻¹Bᵀ·opd`, compose = `B·c`, remove = `opd − B·fit`; coefficient
 positions of `zernike_compose`; permutation of the requested modes. -/
@@ -145,13 +147,93 @@ theorem exBasis_entries : blockOf 3 3 exBasis = !![1, -1, 0; 1, -1/2, 1/2; 1, 1,
   have n2 : nollN 2 = 1 ∧ nollM 2 = 1 := by decide
   ext r c
   fin_cases r <;> fin_cases c <;>
-    simp [blockOf, exBasis, zBasisX, zernAt, zernCore, exModes, exRho, n1, n4, n2, radialEval, radialCoeff, fact, powK,
+    simp [blockOf, exBasis, zBasisX, zernAt, Gen.zernCore, exModes, exRho, n1, n4, n2, radialEval, radialCoeff, Gen.radialNum, Gen.radialDen, Gen.fact, powK,
       List.range, List.range.loop] <;> norm_num
 
 
 theorem exBasis_independent : IsUnit ((blockOf 3 3 exBasis)ᵀ * blockOf 3 3 exBasis).det := by
   rw [exBasis_entries, Matrix.det_mul, Matrix.det_transpose, isUnit_iff_ne_zero, Matrix.det_fin_three]
   simp
+  norm_num
+
+
+/-- over a linearly ordered field, `BᵀB` is invertible iff `x ↦ B·x` is injective iff the columns of `B` (the requested modes sampled on
+the array) are linearly independent -/
+theorem gram_unit_iff {P M F : Type} [Fintype P] [Fintype M] [DecidableEq M] [Field F] [LinearOrder F] [IsStrictOrderedRing F]
+    (B : Matrix P M F) :
+    (IsUnit (Bᵀ * B).det ↔ Function.Injective B.mulVec) ∧ (IsUnit (Bᵀ * B).det ↔ LinearIndependent F B.col) := by
+  have h1 : IsUnit (Bᵀ * B).det ↔ Function.Injective B.mulVec := by
+    rw [← Matrix.isUnit_iff_isUnit_det, ← Matrix.mulVec_injective_iff_isUnit]
+    constructor
+    · intro h x y hxy
+      apply h
+      rw [← Matrix.mulVec_mulVec, ← Matrix.mulVec_mulVec, hxy]
+    · intro h x y hxy
+      apply h
+      have hz : (Bᵀ * B) *ᵥ (x - y) = 0 := by rw [Matrix.mulVec_sub, hxy, sub_self]
+      have hq : (B *ᵥ (x - y)) ⬝ᵥ (B *ᵥ (x - y)) = 0 := by
+        rw [Matrix.dotProduct_mulVec, ← Matrix.mulVec_transpose, Matrix.mulVec_mulVec, hz, zero_dotProduct]
+      have := dotProduct_self_eq_zero.1 hq
+      rw [Matrix.mulVec_sub, sub_eq_zero] at this
+      exact this
+  exact ⟨h1, h1.trans Matrix.mulVec_injective_iff⟩
+
+
+theorem zBasisX_outside {F : Type} [Field F] (sqrtN : ℕ → F) (cos sin : F → F) (modes : ℕ → ℕ) (normalize : Bool) (rho theta : ℕ → F) (mask : ℕ → Bool)
+    (s a : ℕ) (h : mask s = false) : zBasisX sqrtN cos sin modes normalize rho theta mask s a = 0 := by
+  unfold zBasisX zernAt Gen.zernCore
+  simp only [h, Bool.false_eq_true, if_false, mul_zero]
+  split_ifs <;> rfl
+
+/-- outside the mask `zernike_remove` leaves the OPD untouched, and the fit does not look at the OPD there -/
+theorem remove_outside_mask {F : Type} [Field F] (sqrtN : ℕ → F) (cos sin : F → F) (p k : ℕ) (modes : ℕ → ℕ) (normalize : Bool) (rho theta : ℕ → F)
+    (mask : ℕ → Bool) (opd opd' : ℕ → F) :
+    (∀ s, mask s = false → removeX p k (zBasisX sqrtN cos sin modes normalize rho theta mask) opd s = opd s) ∧
+    ((∀ s, s < p → mask s = true → opd s = opd' s) →
+      ∀ a, fitX p k (zBasisX sqrtN cos sin modes normalize rho theta mask) opd a
+         = fitX p k (zBasisX sqrtN cos sin modes normalize rho theta mask) opd' a) := by
+  constructor
+  · intro s hs
+    unfold removeX composeX
+    simp only [zBasisX_outside _ _ _ _ _ _ _ _ s _ hs, zero_mul, sumRange_eq_sum, Finset.sum_const_zero, sub_zero]
+  · intro hag a
+    unfold fitX
+    have : rhsX p (zBasisX sqrtN cos sin modes normalize rho theta mask) opd
+        = rhsX p (zBasisX sqrtN cos sin modes normalize rho theta mask) opd' := by
+      funext b
+      unfold rhsX
+      simp only [sumRange_eq_sum]
+      apply Finset.sum_congr rfl
+      intro s hs
+      by_cases hm : mask s = true
+      · rw [hag s (Finset.mem_range.1 hs) hm]
+      · rw [zBasisX_outside _ _ _ _ _ _ _ _ s b (by simpa using hm), zero_mul, zero_mul]
+    rw [this]
+
+
+/-- cos and sin at the multiples `x·π/2` of a quarter turn, as exact rational tables (`x` integer-valued, |x| ≤ 3) -/
+def cosQ (x : ℚ) : ℚ := if x = 0 then 1 else if x = 2 ∨ x = -2 then -1 else 0
+def sinQ (x : ℚ) : ℚ := if x = 1 ∨ x = -3 then 1 else if x = -1 ∨ x = 3 then -1 else 0
+
+/-- a 2 × 2 array raveled in C order: samples (ρ, θ) = (1, 0), (1, π/2), (1/2, π), (0, 0), all inside the mask; requested modes [2, 3, 4]
+(x-tilt: cosine, y-tilt: sine with m = −1, defocus), unnormalised; angles in units of π/2 -/
+def ex2Modes : ℕ → ℕ := fun a => if a = 0 then 2 else if a = 1 then 3 else 4
+def ex2Rho : ℕ → ℚ := fun s => if s = 0 then 1 else if s = 1 then 1 else if s = 2 then 1 / 2 else 0
+def ex2Theta : ℕ → ℚ := fun s => if s = 0 then 0 else if s = 1 then 1 else if s = 2 then 2 else 0
+def ex2Basis : ℕ → ℕ → ℚ := zBasisX (fun _ => 0) cosQ sinQ ex2Modes false ex2Rho ex2Theta (fun _ => true)
+
+theorem ex2Basis_entries : blockOf 4 3 ex2Basis = !![1, 0, 1; 0, -1, 1; -1/2, 0, -1/2; 0, 0, -1] := by
+  have n2 : nollN 2 = 1 ∧ nollM 2 = 1 := by decide
+  have n3 : nollN 3 = 1 ∧ nollM 3 = -1 := by decide
+  have n4 : nollN 4 = 2 ∧ nollM 4 = 0 := by decide
+  ext r c
+  fin_cases r <;> fin_cases c <;>
+    simp [blockOf, ex2Basis, zBasisX, zernAt, Gen.zernCore, ex2Modes, ex2Rho, ex2Theta, n2, n3, n4, radialEval, radialCoeff,
+      Gen.radialNum, Gen.radialDen, Gen.fact, powK, cosQ, sinQ, List.range, List.range.loop] <;> norm_num
+
+theorem ex2Basis_independent : IsUnit ((blockOf 4 3 ex2Basis)ᵀ * blockOf 4 3 ex2Basis).det := by
+  rw [ex2Basis_entries, isUnit_iff_ne_zero, Matrix.det_fin_three]
+  simp [Matrix.mul_apply, Fin.sum_univ_four]
   norm_num
 
 end Lentil
